@@ -32,6 +32,7 @@ class Isolation(Harness):
             cl.append(("right-hand list has the same items", T(len(out["b_after"]) == len(B))))
             for a, b in zip(out["b_after"], B):
                 cl.extend(same_item(a, b, f"right item {b.get('idb')}"))
+            cl.append(("the right-hand list of a join (no ancestor of anything edited) does not report obsolete", T(out.get("b_obsolete") is False)))
         return cl
 
 class DeepcopyIsolation(Harness):
@@ -130,6 +131,7 @@ def harnesses(tier):
         hs.append(Isolation(LodOp(m, 2, v)))
     for kind in ("semi_join", "anti_join", "left_join", "inner_join", "full_join"):
         hs.append(Isolation(LodJoin(kind, 1, 2, 2)))
+        hs.append(Isolation(LodJoin(kind, 1, 1 if q else 2, 2, renamed=True)))
     hs.append(DeepcopyIsolation(2 if q else 3))
     hs.append(Obsolescence(1))
     hs.append(Obsolescence(2))
